@@ -82,6 +82,26 @@ Definition ser_request (method target : list N) (minor : N) (multiplexed : bool)
           else match fr with Some f => f | None => if multiplexed then Chunked else Det 0 end)
   end.
 
+(* ---- the request target. The http crate holds path and query as one string and renders it with [as_str]: "/" when the string
+   is empty, the string itself otherwise - so an absolute-form target with an empty path and a query (http://h.test?x=1) is
+   rendered "?x=1". [wire_target] is what serialize_request writes for what [as_str] gave ([slash] =
+   FWD_EMPTY_PATH_IS_SLASH: "/" is written in front of a rendering that starts with the query; as found it was not) *)
+Definition crate_as_str (path : list N) (query : option (list N)) : list N :=
+  match path ++ match query with Some q => 63 :: q | None => [] end with
+  | [] => [47]
+  | d => d
+  end.
+
+Definition wire_target (slash : bool) (rendered : list N) : list N :=
+  match rendered with
+  | 63 :: _ => if slash then 47 :: rendered else rendered
+  | _ => rendered
+  end.
+
+(* RFC 9112 3.2.1 origin-form: absolute-path [ "?" query ], an empty path being sent as "/" *)
+Definition origin_form (path : list N) (query : option (list N)) : list N :=
+  (match path with [] => [47] | _ => path end) ++ match query with Some q => 63 :: q | None => [] end.
+
 (* ---- what "the same headers minus proxy hop-by-hop ones, for the target host" reads as: Proxy-Authorization and
    Proxy-Connection are gone, the Host field names the request's authority (in place if the client sent one, else last),
    everything else is kept in order *)
